@@ -33,6 +33,19 @@ def _is_set_ann(ann: ast.AST | None) -> bool:
     return (dotted_name(base) or "").split(".")[-1] in ("set", "Set", "frozenset", "FrozenSet", "AbstractSet")
 
 
+def _int_elements(fn: FuncInfo, r, e: ast.expr) -> bool:
+    """is `e` a name annotated (parameter or annotated assignment in this function) as a collection of int?"""
+    if not isinstance(e, ast.Name):
+        return False
+    anns = [r.param_annotation(e.id)] if e.id in fn.params() else []
+    anns += [n.annotation for n in walk_no_nested(fn.node) if isinstance(n, ast.AnnAssign) and isinstance(n.target, ast.Name) and n.target.id == e.id]
+    for a in anns:
+        if isinstance(a, ast.Subscript) and (dotted_name(a.value) or "").split(".")[-1] in ("list", "List", "set", "Set", "Sequence", "Iterable", "frozenset", "tuple") \
+                and isinstance(a.slice, ast.Name) and a.slice.id == "int":
+            return True
+    return False
+
+
 def unordered_source(ctx, fn: FuncInfo, e: ast.expr, depth: int = 3) -> ast.expr | None:
     """The unordered collection `e` draws from (None if ordered / unknown)."""
     r = ctx.resolver(fn)
@@ -62,6 +75,10 @@ def unordered_source(ctx, fn: FuncInfo, e: ast.expr, depth: int = 3) -> ast.expr
         if q in ("sorted",):
             return None
         if q in ("set", "frozenset"):
+            if e.args and _int_elements(fn, r, e.args[0]):
+                # hash(int) is the int: the iteration order of a set of ints is a function of the values and the insertion sequence only,
+                # never of PYTHONHASHSEED (str / bytes / object hashes are what the seed randomises)
+                return None
             return e
         if q in FS_ENUM_FUNCS:
             return e
@@ -248,7 +265,6 @@ def unordered_iterations(ctx, fn: FuncInfo):
 # order-insensitive uses confirmed by reading: (function, source text prefix) -> reason
 UNORDERED_OK = {
     ("codemodder.code_directory.files_for_directory", "Path(parent_path).rglob"): "every consumer passes the list through match_files(), which sorts",
-    ("codemodder.diff.calc_line_num_changes", "set(changed_line_nums)"): "set of small ints: iteration order is by value for the sizes involved and independent of the hash seed",
     ("codemodder.registry.CodemodRegistry.default_include_paths", "self._default_include_paths"): "only used as fnmatch include patterns (set algebra in match_files) and for logging",
     ("codemodder.context.CodemodExecutionContext.process_dependencies", "dependencies"): "each codemod adds at most one distinct Dependency (checked by R-NO-UNORDERED-ITER/one-dependency)",
     ("codemodder.context.CodemodExecutionContext.process_dependencies", "self.dependencies.get(codemod_id)"): "each codemod adds at most one distinct Dependency (checked by R-NO-UNORDERED-ITER/one-dependency)",
